@@ -509,7 +509,7 @@ def gen_graph(rng, tier="quick", version=None, max_segs=None, star_names=False, 
     n_wire = rng.randint(0, n + 2)
     for _ in range(n_wire):
         act = rng.random()
-        if act < 0.35 and outer:
+        if act < 0.30 and outer:
             o = rng.choice(outer)
             x = rng.choice(o)
             y = rng.choice(j_ends) if (j_ends and rng.random() < 0.7) else rng.choice(all_ends)
@@ -520,10 +520,10 @@ def gen_graph(rng, tier="quick", version=None, max_segs=None, star_names=False, 
         elif act < 0.55:
             nm = rng.choice(names)
             add_dove((nm, "R"), (nm, "L"))               # circular self-link
-        elif act < 0.68:
+        elif act < 0.66:
             x = rng.choice(rng.choice(outer)) if (outer and rng.random() < 0.6) else rng.choice(all_ends)
             add_dove(x, x)                               # hairpin
-        elif act < 0.8 and doves:
+        elif act < 0.78 and doves:
             dv = rng.choice(doves)
             add_dove(dv["x"], dv["y"], force_spec=v1)    # parallel edge
         else:
